@@ -189,3 +189,55 @@ def write_evidence(prop, tier, seed, level, coverage, wall, violations, assumpti
           "assumptions": assumptions, "wall_s": round(wall, 1), "violations": violations}
     with open(os.path.join(VERIF, "evidence", prop + ".json"), "w") as f:
         json.dump(ev, f, indent=1)
+
+
+RE_TAG = re.compile(r'^<<"([A-Z-]+)", (.*)>>$')
+
+
+def tagged_lines(text, tag):
+    """Decode TLC PrintT lines of the form <<"TAG", "json">> or <<"TAG", int>>."""
+    out = []
+    for line in text.splitlines():
+        m = RE_TAG.match(line.strip())
+        if not m or m.group(1) != tag:
+            continue
+        body = m.group(2)
+        try:
+            v = json.loads(body)
+            if isinstance(v, str):
+                try:
+                    v = json.loads(v)
+                except Exception:
+                    pass
+            out.append(v)
+        except Exception:
+            out.append(body)
+    return out
+
+
+def validate_trace(tag, base, trace_file, consts=None, timeout=600, heap="4g"):
+    """TLC validates one recorded ndjson trace against trace spec `base` (TSpec/Track/Accepted/Report).
+    Returns dict(accepted, reject (decoded TRACE-REJECT payload or None), states, wall_s, text)."""
+    d = run_dir(tag)
+    consts = dict(consts or {})
+    consts.setdefault("MaxPrice", MAXPRICE)
+    write_model(d, "MC", base, consts,
+                ["SPECIFICATION TSpec", "INVARIANT Report", "CONSTRAINT Track", "POSTCONDITION Accepted"])
+    env = dict(os.environ, TRACE=trace_file,
+               JAVA_TOOL_OPTIONS="-Xss1g -Xmx%s -Dtlc2.tool.queue.IStateQueue=StateDeque" % heap)
+    t0 = time.time()
+    r = subprocess.run(["timeout", str(timeout)] + tlc_cmd(d, "MC", 1), cwd=d, text=True,
+                       capture_output=True, env=env)
+    text = r.stdout + r.stderr
+    tl = parse_tlc(text)
+    rej = tagged_lines(text, "TRACE-REJECT")
+    acc = tagged_lines(text, "ACCEPTED")
+    res = {"accepted": bool(acc) and not rej and "REJECTED" not in text, "reject": rej[0] if rej else None,
+           "states": tl["distinct"], "generated": tl["generated"], "wall_s": round(time.time() - t0, 1),
+           "rc": r.returncode, "text": text}
+    shutil.rmtree(os.path.join(d, "md"), ignore_errors=True)
+    if r.returncode == 124:
+        raise ToolError("%s: trace validation timed out after %ss" % (tag, timeout))
+    if not res["accepted"] and not rej and not tagged_lines(text, "REJECTED"):
+        raise ToolError("%s: TLC failed while validating %s:\n%s" % (tag, trace_file, text[-3000:]))
+    return res
